@@ -253,6 +253,34 @@ def hash_twin_family(sr, rng):
     return out
 
 
+def hermitian_lazy_family(sr, rng):
+    """Square Hermitian fermionic matrices that still carry pending signs (as left by a lazy
+    transpose), with blocks large enough for numpy to release the interpreter lock."""
+    from . import gen
+    from . import refsym as R
+
+    out = []
+    for _ in range(2):
+        sym = rng.choice(["Z2", "U1", "Z2Z2"])
+        cs = rng.sample(gen.POOL[sym], 2)
+        d = rng.choice([3, 8, 24, 40])
+        r = sr.BlockIndex({c: d for c in sorted(cs)}, dual=rng.random() < 0.5)
+        a = gen.make_array(sr, rng, sym, [r, gen.conj_index(sr, r)], charge=R.identity(sym), fermionic=True, kind="static", values=gen.Values(rng, "gauss", rng.choice(["float64", "complex128"])), sparsity=0.0, nphase=0, exotic=False)
+        try:
+            h = a + a.dagger()
+            h.phase_transpose((1, 0), inplace=True)
+        except Exception:
+            continue
+        if h.blocks and any(v == -1 for v in h.phases.values()):
+            out.append((f"hermitian-lazy-{sym}-{d}", h))
+    return out
+
+
+def _eigh_digestable(sr, m):
+    w, v = sr.linalg.eigh(m)
+    return tuple(sorted((repr(c), tuple(np.round(np.sort(np.asarray(b)), 8) + 0.0)) for c, b in w.blocks.items()))
+
+
 def stripped_twin(sr, x):
     """Same charge tables, directions, sectors and block values, but every fused leg replaced
     by a plain index (no sub-index information). None if x has no fused leg."""
@@ -322,15 +350,23 @@ def make_ops(sr, seed, n):
     arrays += nested_chain_family(sr, rng)
     if rng.random() < 0.6:
         arrays += hash_twin_family(sr, rng)
+    herm = hermitian_lazy_family(sr, rng)
+    arrays += herm
     twins = {}
     for tag, x in list(arrays):
         t = stripped_twin(sr, x)
         if t is not None:
             twins[tag] = ("stripped:" + tag, t)
             arrays.append(twins[tag])
-    base = [(t, x) for t, x in arrays if not t.startswith("stripped:")]
+    base = [(t, x) for t, x in arrays if not t.startswith("stripped:") and not t.startswith("hermitian-lazy")]
     fused_in = [(t, x) for t, x in base if t in twins]
     ops = []
+    for tag, x in herm:
+        # eigh next to other out-of-place calls on the same (shared) matrix
+        ops.append((f"{tag}.eigh", lambda x=x: _eigh_digestable(sr, x), tag))
+        ops.append((f"{tag}.transpose", lambda x=x: x.transpose((1, 0)), tag))
+        ops.append((f"{tag}.conj.tensordot", lambda x=x: sr.tensordot(x.conj(), x, axes=2, preserve_array=True), tag))
+        ops.append((f"{tag}.eigh-again", lambda x=x: _eigh_digestable(sr, x), tag))
     for k in range(n):
         tag, x = rng.choice(fused_in) if (fused_in and rng.random() < 0.35) else rng.choice(base)
         kind = rng.choice(["fuse", "fuse", "reshape", "tensordot", "svd", "transpose", "fuse-unfuse", "fuse-shrink-fuse"])
